@@ -17,9 +17,14 @@ tables  -- what the translator does not carry as expressions: the if/elif chain 
 The guards are produced by extract.site_defs (same naming / baseline alignment as every other site) but emitted from TABLES(),
 because the chain table must come after them in the generated file; SITES is therefore empty.
 """
-import ast, os, stat as _stat
-import extract
-from extract import Site, Tr, Untranslatable, find_func, lean_str
+import ast, os, stat as _stat, sys
+import extract as _extract_module
+
+# extract.py run as a script is the module `__main__`, not `extract`: take the copy that is actually running, so that
+# site_defs called from TABLES() below sees the baseline main() loaded and records the new one where main() writes it
+_m = sys.modules.get('__main__')
+extract = _m if all(hasattr(_m, a) for a in ('site_defs', 'NEWBASE', 'BASELINE', 'Site', 'Tr', 'Untranslatable')) else _extract_module
+Site, Tr, Untranslatable, find_func, lean_str = extract.Site, extract.Tr, extract.Untranslatable, extract.find_func, extract.lean_str
 
 LEAN_MODULE = 'Execv'
 IMPORTS = ['SupervisorModel.Model.ExecvTypes', 'SupervisorModel.Generated.Proc']
@@ -163,24 +168,31 @@ def TABLES():
     guards, defined = _site(CHECK, out)
     f = find_func(otree, 'ServerOptions.check_execv_args')
     chain, shape = [], [a.arg for a in f.args.args] == ['self', 'filename', 'argv', 'st']
-    body = _body(f)
-    if len(body) == 1 and isinstance(body[0], ast.If):
-        node = body[0]
-        while True:
-            chain.append(_raised_class(node.body))
-            if len(node.orelse) == 1 and isinstance(node.orelse[0], ast.If):
-                node = node.orelse[0]
-                continue
-            shape = shape and not node.orelse
+    # the body: if/elif chains without else whose every branch is one raise, one after another (equivalent to one chain, as
+    # every branch leaves the function), with assignments of locals in between (inlined into the tests by the translator)
+    for stmt in _body(f):
+        if isinstance(stmt, ast.If):
+            node = stmt
+            while True:
+                chain.append(_raised_class(node.body))
+                if len(node.orelse) == 1 and isinstance(node.orelse[0], ast.If):
+                    node = node.orelse[0]
+                    continue
+                shape = shape and not node.orelse
+                break
+        elif isinstance(stmt, ast.Assign) and len(stmt.targets) == 1 and isinstance(stmt.targets[0], ast.Name) \
+                and not any(isinstance(n, ast.Call) and not ExecvTr(CHECK, f)._statcall(n) for n in ast.walk(stmt.value)):
+            continue
+        elif isinstance(stmt, ast.Return) and stmt.value is None:
             break
-    else:
-        shape = False
+        else:
+            shape = False
     shape = shape and len(chain) == len(guards) and all(c is not None for c in chain) and all(g in defined for g in guards)
     # the access question is about the file that was handed in and about execute permission (anything else is untranslated
     # above and shows as a missing guard); nothing else in the function calls os.access
     acc_calls = [ast.unparse(n) for n in _calls(f, 'access')]
     out.append('')
-    out.append('/-- the body of check_execv_args is one if/elif chain without else, every branch is one `raise <Class>(...)`, and falling')
+    out.append('/-- the body of check_execv_args is a sequence of if/elif chains without else, every branch is one `raise <Class>(...)`, and falling')
     out.append('    through the chain returns None: (test, class raised), in source order -/')
     out.append('def checkChain : List ((Option Int → Bool → Bool) × String) := [' +
                (', '.join('(%s, %s)' % (g, lean_str(c)) for g, c in zip(guards, chain)) if shape else '') + ']')
